@@ -1,11 +1,31 @@
 #!/bin/sh
 # Runs the repository's own test suite (no instrumentation, no build tag: /verif adds none to
 # /repo) on a scratch copy, so that `go` in workspace mode does not touch /repo/go.work.sum.
+# A package that fails is run once more: a few tests of the repository (event-based gateway,
+# boundary events, pkg/event's concurrent fan-out test) fail or crash in a few percent of runs
+# on the pristine snapshot as well. Exit status 1 if a package fails twice.
 set -e
 S=$(mktemp -d /dev/shm/verif-baseline-XXXXXX 2>/dev/null || mktemp -d)
 trap 'rm -rf "$S"' EXIT
 rsync -a --exclude .git /repo/ "$S/repo/"
 export GOPROXY=off GOSUMDB=off GOTOOLCHAIN=local
+rc=0
 for m in . ./schema; do
-  (cd "$S/repo/$m" && go test -json -vet=off -count=1 -timeout 12m ./...) || true
+  (cd "$S/repo/$m" && go test -json -vet=off -count=1 -timeout 12m ./...) > "$S/out.json" || true
+  cat "$S/out.json"
+  failed=$(python3 - "$S/out.json" <<'PY'
+import json,sys
+bad=set()
+for l in open(sys.argv[1]):
+    try: e=json.loads(l)
+    except Exception: continue
+    if not e.get('Test') and e.get('Action')=='fail': bad.add(e['Package'])
+print(' '.join(sorted(bad)))
+PY
+)
+  for p in $failed; do
+    echo "baseline_off: package $p failed, running it once more" >&2
+    (cd "$S/repo/$m" && go test -json -vet=off -count=1 -timeout 12m "$p") || rc=1
+  done
 done
+exit $rc
